@@ -350,6 +350,30 @@ def gen_input(rng):
     kind = rng.random()
     files = []
     lines = []
+    if kind < 0.12:
+        # plain `diff -u` / svn-style streams: file sections follow each other without a `diff --git` line.
+        # Section k's hunks start at line 1000*(k+1)+…, so a line number tells which section a link belongs to.
+        names = rng.sample(["one.txt", "sub/two.txt", "three.rs", "dir/four.py", "five.md"], rng.randint(2, 4))
+        for k, name in enumerate(names):
+            files.append(name)
+            style = rng.random()
+            if style < 0.5:
+                lines += [f"--- {name}", f"+++ {name}"]
+            elif style < 0.7:
+                lines += [f"--- {name}\t2024-01-01 00:00:00.000000000 +0000", f"+++ {name}\t2024-01-02 00:00:00.000000000 +0000"]
+            elif style < 0.9:
+                lines += [f"Index: {name}", "=" * 67, f"--- {name}\t(revision 1)", f"+++ {name}\t(working copy)"]
+            else:
+                lines += [f"diff -u {name} {name}", f"--- {name}", f"+++ {name}"]
+            start = 1000 * (k + 1) + rng.randint(1, 800)
+            for _ in range(rng.randint(1, 2)):
+                body = [rng.choice(" -+") + rng.choice(["let x = 1;", "foo(bar)", "text"]) for _ in range(rng.randint(1, 4))]
+                nm = sum(1 for b in body if b[0] in " -")
+                npl = sum(1 for b in body if b[0] in " +")
+                lines.append(f"@@ -{start},{nm} +{start},{npl} @@")
+                lines += body
+                start += nm + rng.randint(3, 40)
+        return lines, files
     if kind < 0.8:
         if rng.random() < 0.6:
             h = "".join(rng.choice("0123456789abcdef") for _ in range(40))
@@ -521,6 +545,14 @@ def binary_case(ctx, rep, case):
                               "wrong-target:path", "a file link does not carry the absolute path of a file of the input",
                               dict(kind="binary", row=i, url=u, text=t, want=sorted(want_abs), **case))
                 return
+            if case.get("plain") and line and line.isdigit() and 1000 <= int(line) < 1000 * (len(files) + 1):
+                own = os.path.normpath(os.path.join(root, files[int(line) // 1000 - 1]))
+                if path != own:
+                    report(rep, "wrong-target:section:plain-diff",
+                           "in a stream of plain diff -u sections a line-number link points at another section's file",
+                           dict(kind="binary", row=i, url=u, text=t, want=own, **case))
+                    return
+                continue
             # which file: a link whose text names a file must point at that file; a bare number
             # (gutter) at the file of the current section
             # the names a file can be displayed under: its own, relativized, and rewritten by --file-transformation
@@ -609,6 +641,9 @@ def binary_cases(ctx):
         fmt = clean_template(rng) if inv else template_text(gen_template(rng))
         cfmt = rng.choice([None, "https://example.com/c/{commit}", "x:{commit}:y"])
         prefix = rng.choice([None, None, "sub/", ""])
+        is_plain = lines[0].startswith(("--- ", "Index: ", "diff -u "))
+        if is_plain:
+            inv, fmt, prefix = True, rng.choice(["file-line://{path}:{line}", "x://{path}#L{line}"]), None
         is_rg = lines[0].startswith("{")
         is_grep = not is_rg and re.match(r"[^ :]+[:-]\d+[:-]", lines[0]) is not None
         caller = None
@@ -620,10 +655,13 @@ def binary_cases(ctx):
         # make different files look alike
         xform = rng.choice([None, None, "s,^sub/,,", "s,^,LONG/PREFIX/,", "s,[^/]*\\.rs$,same.rs,", "s,^.*$,FILE,",
                             "s,(\\w+)/,$1-$1/,"])
-        modes = [m for m in BIN_MODES if not ((is_rg or is_grep) and "--relative-paths" in m)]
+        modes = [m for m in BIN_MODES if not ((is_rg or is_grep or is_plain) and "--relative-paths" in m)]
+        if is_plain:
+            modes = [["--line-numbers"], ["--side-by-side", "--width", "120"], ["--line-numbers", "--navigate"],
+                     ["--side-by-side", "--width", "56"], ["--hunk-header-style", "file line-number syntax", "--line-numbers"]]
         for mode in rng.sample(modes, ctx.n(3, 5)):
             cases.append(dict(lines=lines, files=files, fmt=fmt, cfmt=cfmt, mode=mode, prefix=prefix, invertible=inv,
-                              xform=xform, caller=caller))
+                              xform=None if is_plain else xform, caller=caller, plain=is_plain))
     return cases
 
 
@@ -709,7 +747,7 @@ def run(ctx, rep):
 def replay(ctx, rep, obj):
     case = obj.get("case", {})
     if case.get("kind") == "binary":
-        c = {k: case[k] for k in ("lines", "files", "fmt", "cfmt", "mode", "prefix", "invertible", "xform", "caller") if k in case}
+        c = {k: case[k] for k in ("lines", "files", "fmt", "cfmt", "mode", "prefix", "invertible", "xform", "caller", "plain") if k in case}
         binary_case(ctx, rep, c)
     else:
         run(ctx, rep)
